@@ -1131,6 +1131,12 @@ func checkC20(c *Ctx, r *Report) {
 	}
 	// C20.console
 	c.checkStdoutInit(r)
+	// thorough: no buffered writer anywhere below the synchronous appenders
+	var roots []*ssa.Function
+	for _, nt := range ro.LeafAppenders {
+		roots = append(roots, c.declaredMethod(nt, "Write"), c.declaredMethod(nt, "Append"))
+	}
+	c.wholeProgramObligation(r, "C20.direct:whole-program", roots, false, false, true, "user-space buffered writer reachable below a synchronous appender")
 }
 
 func isEventPtr(t types.Type) bool {
@@ -1457,4 +1463,9 @@ func checkNoPanicHot(c *Ctx, r *Report, ro *Roles, rule string) {
 	if n == 0 {
 		r.OK(rule+":module", "no explicit panic / os.Exit / log.Fatal in the %d hot-path functions of the module", len(ro.HotPath))
 	}
+	var roots []*ssa.Function
+	for f := range ro.HotPath {
+		roots = append(roots, f)
+	}
+	c.wholeProgramObligation(r, rule+":whole-program", roots, false, true, false, "process-ending call reachable from the log call path")
 }
